@@ -4,6 +4,7 @@
 -/
 import MicroHttp.Show
 import MicroHttp.SrvProto
+import MicroHttp.Conn00
 import MicroHttp.Spec.RespReader
 open MicroHttp
 
@@ -83,6 +84,12 @@ structure DState where
   conn : Conn0 := Conn.new MAX_PAYLOAD_SIZE
   /-- what is left of the last offer (`conn recv`) after the connection took what fitted -/
   offer : List Byte := []
+  /-- the same connection with the receive buffer as the Rust code has it (Conn00.lean); stepped in
+      parallel on every read and compared with the window model -/
+  conn00 : Conn00 RequestLine Headers := Conn00.new P0 MAX_PAYLOAD_SIZE
+  /-- whether the concrete-buffer model is stepped too (it is quadratic in the buffer size per read, so the
+      harness switches it on for a sample of the cases: op `l00 1` / `l00 0`) -/
+  l00 : Bool := false
   srv : Srv := Srv.new
 
 def showOuts (outs : List (Out RequestLine Headers)) : String :=
@@ -98,10 +105,27 @@ def showPhase : Phase RequestLine Headers → String
 def handlerResp (h : Nat) : Response :=
   (Response.new .http10 .ok).apply (.setBody (str s!"handler-{h}"))
 
+/-- step the concrete-buffer model alongside the window model and flag any difference -/
+def readBoth (st : DState) (inp : Recv) : Conn0 × ReadOut × Conn00 RequestLine Headers × String :=
+  let (c', out) := tryRead P0 st.conn inp
+  if !st.l00 then (c', out, st.conn00, "") else
+  -- the write side / queues are shared: bring them over before the read
+  let c00 : Conn00 RequestLine Headers :=
+    { st.conn00 with parsed := st.conn.parsed, respQ := st.conn.respQ, respBuf := st.conn.respBuf }
+  let (c00', out00) := tryRead00 P0 c00 inp
+  let a := c00'.abs
+  let same := decide (out00 = out) && decide (a.win = c'.win) && decide (a.bodyVec = c'.bodyVec) &&
+    decide (a.toRead = c'.toRead) && decide (a.state = c'.state) && decide (a.files = c'.files) &&
+    decide (a.parsed.length = c'.parsed.length) && decide (a.respQ.length = c'.respQ.length) &&
+    decide (c00'.buffer.length = P0.B)
+  (c', out, c00', if same then "" else " L00-DIVERGES-FROM-L0")
+
 def stepLine (st : DState) (line : String) : DState × String :=
   match line.trimAscii.toString.splitOn " " with
   | "case" :: rest => (st, "case " ++ " ".intercalate rest)
   | "#" :: _ => (st, "#")
+  | ["l00", "1"] => ({ st with l00 := true }, "ok")
+  | ["l00", "0"] => ({ st with l00 := false }, "ok")
   | ["method", h] =>
     match unhex h with
     | some bs => (st, match Method.tryFrom bs with | some m => "some " ++ m.show | none => "none")
@@ -182,25 +206,25 @@ def stepLine (st : DState) (line : String) : DState × String :=
     | _, _, _ => (st, "bad-op")
   | ["conn", "new", l] =>
     match l.toNat? with
-    | some l => ({ st with conn := Conn.new l }, "ok")
+    | some l => ({ st with conn := Conn.new l, conn00 := Conn00.new P0 l, offer := [] }, "ok")
     | none => (st, "bad-op")
   | ["conn", "recv", h, fds] =>
     match unhex h, parseNatList fds with
     | some bs, some fds =>
       let n := if bs.isEmpty then 0 else takes P0 st.conn bs
-      let (c', out) := tryRead P0 st.conn (.data bs fds)
-      ({ st with conn := c', offer := bs.drop n }, s!"{out.show} n={n} pw={bool01 (pendingWrite c')}")
+      let (c', out, c00', flag) := readBoth st (.data bs fds)
+      ({ st with conn := c', conn00 := c00', offer := bs.drop n }, s!"{out.show} n={n} pw={bool01 (pendingWrite c')}{flag}")
     | _, _ => (st, "bad-op")
   | ["conn", "more"] =>
     let bs := st.offer
     let n := if bs.isEmpty then 0 else takes P0 st.conn bs
-    let (c', out) := tryRead P0 st.conn (.data bs [])
-    ({ st with conn := c', offer := bs.drop n }, s!"{out.show} n={n} pw={bool01 (pendingWrite c')}")
+    let (c', out, c00', flag) := readBoth st (.data bs [])
+    ({ st with conn := c', conn00 := c00', offer := bs.drop n }, s!"{out.show} n={n} pw={bool01 (pendingWrite c')}{flag}")
   | ["conn", "rerr", e] =>
     match e.toNat? with
     | some e =>
-      let (c', out) := tryRead P0 st.conn (.err e)
-      ({ st with conn := c' }, s!"{out.show} n=0 pw={bool01 (pendingWrite c')}")
+      let (c', out, c00', flag) := readBoth st (.err e)
+      ({ st with conn := c', conn00 := c00' }, s!"{out.show} n=0 pw={bool01 (pendingWrite c')}{flag}")
     | none => (st, "bad-op")
   | ["conn", "pop"] =>
     let (c', r) := popParsed st.conn
